@@ -117,8 +117,13 @@ def gen_recent_case(rng: random.Random, tier: str, backends=('dict',)) -> dict:
             elif r < 0.6:
                 # (MOVE into the selected mailbox itself: a new UID for the
                 # same file, the message arrives a second time)
+                # (only session 0 moves: two sessions moving the same
+                # message within its own mailbox at the same instant are
+                # both given the new UID - MOVE is outside the property's
+                # alphabet and that race is not judged, see DESIGN.md)
                 acts.append({'sess': sess,
-                             'kind': rng.choice(['copy', 'copy', 'move']),
+                             'kind': rng.choice(['copy', 'copy', 'move'])
+                             if sess == 0 else 'copy',
                              'uid': rng.random() < 0.3,
                              'set': seq_set(rng, 4),
                              'mailbox': 'INBOX'})
